@@ -239,8 +239,12 @@ def rule_pairing(ctx):
         op = outer[0]
         inner = [st for st in op.body if isinstance(st, ast.For)]
         mid = norm(op.target.elts[0])
-        oka = bool(inner) and norm(inner[0].iter) == "matches[%s][1]" % mid and norm(op.iter) == "enumerate(primary_loader)"
-        prim = [st for st in walk_no_nested(op) if isinstance(st, ast.Assign) and norm(st.targets[0]) == "primary" and "primaries[%s]" % mid in norm(st.value)]
+        # primaries, secondaries = zip(*matches): secondaries[k] is matches[k][1]
+        zp = [st for st in walk_no_nested(a.node) if isinstance(st, ast.Assign) and isinstance(st.targets[0], ast.Tuple) and len(st.targets[0].elts) == 2
+              and norm(st.value).replace(" ", "") == "zip(*matches)"]
+        inner_ok = ["matches[%s][1]" % mid] + (["%s[%s]" % (norm(zp[0].targets[0].elts[1]), mid)] if len(zp) == 1 else [])
+        oka = bool(inner) and str(norm(inner[0].iter)).replace(" ", "") in inner_ok and norm(op.iter) == "enumerate(primary_loader)"
+        prim = [st for st in walk_no_nested(op) if isinstance(st, ast.Assign) and norm(st.targets[0]) == "primary" and ("primaries[%s]" % mid in norm(st.value) or "matches[%s][0]" % mid in norm(st.value))]
         oka = oka and bool(prim)
     ctx.ob("FileSet.align.order", oka, "outer: %s; inner: %s" % (norm(outer[0].iter) if outer else None, norm(inner[0].iter) if outer and inner else None),
            "primary k of the loader is paired with primaries[k] and walks matches[k][1] in order (primary-major, like the bookkeeping)", node=outer[0] if outer else a.node, func=a)
